@@ -4949,6 +4949,16 @@ where
             // Remove the vertex using Tds method (handles internal bookkeeping)
             self.tds.remove_vertex(vertex)?;
 
+            // Deleting the star of a hull vertex can strand neighbouring vertices, pinch or
+            // disconnect the complex: the cavity fill only covers facets that have a surviving
+            // neighbour. Never commit a complex that fails the manifold level; the snapshot
+            // below restores the triangulation and the caller sees an error instead.
+            if self.tds.number_of_cells() > 0 {
+                self.is_valid().map_err(|e| TdsValidationError::InconsistentDataStructure {
+                    message: format!("Vertex removal would leave an invalid triangulation: {e}"),
+                })?;
+            }
+
             Ok(cells_removed)
         })();
 
